@@ -229,7 +229,13 @@ def _page_ctm(model: Model, rep: Report) -> None:
     r4 = rep.rule("C04-R4", "LAW", "page CTM per Rotate: clockwise rotation whose image of the MediaBox has its corner at the origin (polynomial identities)", 5)
     pp = model.func("pdfminer.pdfinterp.PDFPageInterpreter.process_page")
     inner = SymEval(opaque_ok=False)
-    appt = inner.function(model.func("pdfminer.utils.apply_matrix_pt").node)  # type: ignore[arg-type]
+    from .c20 import _special_cases
+
+    apf = model.func("pdfminer.utils.apply_matrix_pt")
+    gen_fn, probs = _special_cases(apf.node, inner)
+    for pr in probs:
+        r4.violation(site(apf), apf.qualname, "apply_matrix_pt: special-case branch", pr)
+    appt = inner.function(gen_fn)  # type: ignore[arg-type]
     se = SymEval(opaque_ok=False)
     x0, y0, x1, y1 = (Poly.var(n) for n in ("x0", "y0", "x1", "y1"))
     # names bound from page.mediabox
